@@ -8,6 +8,7 @@ polynomial and decides with nlsat otherwise.  sqrt / root atoms are reduced with
 (s^2 = arg, r^q = base).
 """
 from fractions import Fraction
+import time
 
 from . import term as tm
 
@@ -58,6 +59,10 @@ def _mmul(m1, m2):
     return tuple(sorted(d.items()))
 
 
+BUDGET_S = 40.0  # wall-clock budget of one difference_numerator call (a mismatching pair can expand without end)
+_DEADLINE = [None]
+
+
 def p_mul(a, b):
     if not a or not b:
         return {}
@@ -65,6 +70,8 @@ def p_mul(a, b):
         raise TooBig()
     out = {}
     for m1, c1 in a.items():
+        if _DEADLINE[0] is not None and time.time() > _DEADLINE[0]:
+            raise TooBig()
         for m2, c2 in b.items():
             m = _mmul(m1, m2)
             v = out.get(m, 0) + c1 * c2
@@ -344,6 +351,9 @@ def poly_term(p):
 def difference_numerator(a, b):
     """polynomial term N with  a - b == N / D  (D a product of the denominators occurring in a and b), or
     None when the expansion is too large."""
+    outer = _DEADLINE[0] is None
+    if outer:
+        _DEADLINE[0] = time.time() + BUDGET_S
     try:
         ex = Expander()
         r = ex.rat(a).add(ex.rat(b), Fraction(-1))
@@ -351,6 +361,9 @@ def difference_numerator(a, b):
         return poly_term(r.num), len(r.num)
     except (TooBig, RecursionError):
         return None
+    finally:
+        if outer:
+            _DEADLINE[0] = None
 
 
 def eq_goal_reparam(reg, a, b):
